@@ -64,6 +64,12 @@ def gen_cases(tier, seed):
             # the compiled derivative with the Wang term on low-symmetry polar cells (Born tensors without any symmetry) must be among the cases
             low = [c for c in cs if c.get("kind") == "deriv" and c.get("nac") == "wang" and c.get("lang") == "C" and c["crystal"]["name"] in ("tric2", "tric3")][:2]
             pick = low + [c for c in pick if c not in low][:per]
+        if sub == "c05":
+            # tolerance arithmetic of the two smallest-vector kernels: near-tie inputs for the dense and for the sparse kernel must be among the cases
+            near = [c for c in cs if c.get("near", 0) > 0]
+            want = [next((c for c in near if c["dense"]), None), next((c for c in near if not c["dense"]), None)]
+            want = [c for c in want if c is not None]
+            pick = want + [c for c in pick if c not in want][:max(0, per - len(want))]
         if sub == "c11":
             # grid-index arithmetic of the tetrahedron kernels: meshes with n0 < n1, n0 > n1 and n1 != n2 must be among the cases
             real = [c for c in cs if c.get("kind") == "real"]
